@@ -79,9 +79,16 @@ static JanetSlot quasiquote(JanetFopts opts, Janet x, int depth, int level) {
                 const uint8_t *head = janet_unwrap_symbol(tup[0]);
                 if (!janet_cstrcmp(head, "unquote")) {
                     if (level == 0) {
-                        JanetFopts subopts = janetc_fopts_default(opts.compiler);
+                        /* The unquoted form is compiled with what is left of the recursion guard after
+                         * the quasiquote levels above it, see janetc_quasiquote. */
+                        JanetCompiler *c = opts.compiler;
+                        int32_t saved_guard = c->recursion_guard;
+                        JanetFopts subopts = janetc_fopts_default(c);
                         subopts.flags |= JANET_FOPTS_ACCEPT_SPLICE;
-                        return janetc_value(subopts, tup[1]);
+                        c->recursion_guard = depth;
+                        JanetSlot ret = janetc_value(subopts, tup[1]);
+                        c->recursion_guard = saved_guard;
+                        return ret;
                     } else {
                         level--;
                     }
@@ -126,7 +133,9 @@ static JanetSlot janetc_quasiquote(JanetFopts opts, int32_t argn, const Janet *a
         janetc_cerror(opts.compiler, "expected 1 argument to quasiquote");
         return janetc_cslot(janet_wrap_nil());
     }
-    return quasiquote(opts, argv[0], JANET_RECURSION_GUARD, 0);
+    /* Nested data and the forms unquoted inside it share the recursion guard of the compiler: a fresh
+     * limit for every quasiquote form would multiply the native stack budget instead of bounding it. */
+    return quasiquote(opts, argv[0], opts.compiler->recursion_guard, 0);
 }
 
 static JanetSlot janetc_unquote(JanetFopts opts, int32_t argn, const Janet *argv) {
